@@ -18,7 +18,21 @@
                 previous top of the same invocation.
 
    Under the contract a frame sees at most N+1 tops (TopBound) and every parse ends (Termination,
-   with a bounded number of sub-parser attempts per iteration and bounded nesting).  With
+   with a bounded number of sub-parser attempts per iteration and bounded nesting).
+
+   Two further dimensions:
+   * end of input: N is the length of the CALLER's input.  The entry point (parser.ParseString) hands
+     the parser that very string; Extra > 0 models an entry point that parses a private copy that is
+     Extra bytes longer (e.g. a newline appended when the input lacks one): the cursor, and with it
+     every error position and Range end taken at the end of the copy, leaves [0, N]
+     (CursorInBounds; negative config ParseCursor_negeof.cfg).
+   * nesting depth: "promptly" needs the total work to be polynomial in the nesting depth.  The work
+     of a nested loop invocation must not be thrown away and redone: with Reparse = FALSE the cursor
+     is never restored to a position before the end of a nested invocation that has finished, so one
+     loop is started at one index at most MaxTries * MaxDepth times (ReparseBound).  Reparse = TRUE
+     models an until-probe that runs the full nested parser and restores (ifExpression's
+     untilElseIfElseOrEnd runs the complete else / else-if parsers): every level multiplies the
+     entries of the innermost body (negative config ParseCursor_negnest.cfg).  With
    Faulty = TRUE a sub-parser may report a match without consuming, so a loop top may repeat its
    index: TopBound is violated -- that is the non-termination the checks look for in the real code
    (verif hook: one event per loop top; spec/TraceParseCursor.tla).                               *)
@@ -28,15 +42,20 @@ CONSTANTS N,          \* input length
           Loops,      \* names of loops
           MaxDepth,   \* nesting bound (Go recursion depth is not the subject)
           MaxTries,   \* sub-parser attempts per iteration (the parser lists are finite)
-          Faulty      \* TRUE: a sub-parser may match without consuming (negative config)
+          Faulty,     \* TRUE: a sub-parser may match without consuming (negative config)
+          Extra,      \* bytes the entry point appended to its private copy of the input (0 = the code)
+          Reparse     \* TRUE: the work of a finished nested invocation may be discarded and redone
 
 VARIABLES idx,        \* the cursor
           stack,      \* active loop invocations, innermost last: [loop, last, tops, tries]
           started,    \* the outermost loop (TemplateFileParser.Parse) has been entered
+          entered,    \* <<loop, start index>> -> number of invocations of that loop started there
           done
-vars == <<idx, stack, started, done>>
+vars == <<idx, stack, started, entered, done>>
 
-Frame(l) == [loop |-> l, last |-> -1, tops |-> 0, tries |-> 0]
+Frame(l) == [loop |-> l, last |-> -1, tops |-> 0, tries |-> 0, floor |-> 0]
+Count(f, k) == IF k \in DOMAIN f THEN f[k] ELSE 0
+Bump(f, k) == (k :> Count(f, k) + 1) @@ f
 Depth == Len(stack)
 TopF == stack[Depth]
 SetTop(f) == [stack EXCEPT ![Depth] = f]
@@ -46,7 +65,7 @@ TopOK(f, i) == f.last = -1 \/ i > f.last
 \* bookkeeping at a loop top
 AtTop(f, i) == [f EXCEPT !.last = i, !.tops = @ + 1, !.tries = 0]
 
-Init == idx = 0 /\ stack = <<>> /\ started = FALSE /\ done = FALSE
+Init == idx = 0 /\ stack = <<>> /\ started = FALSE /\ entered = <<>> /\ done = FALSE
 
 \* a parser function with a loop is called (from the file parser or from a sub-parser of a loop)
 Enter(l) == /\ ~done /\ Depth < MaxDepth
@@ -54,41 +73,45 @@ Enter(l) == /\ ~done /\ Depth < MaxDepth
             /\ (Depth > 0 => TopF.tops > 0 /\ TopF.tries < MaxTries)
             /\ stack' = (IF Depth > 0 THEN SetTop([TopF EXCEPT !.tries = @ + 1]) ELSE stack) \o <<Frame(l)>>
             /\ started' = TRUE
-            /\ UNCHANGED <<idx, done>>
+            /\ UNCHANGED <<idx, entered, done>>
 
 \* control reaches the top of the innermost loop
 LoopTop == /\ ~done /\ Depth > 0
            /\ (Faulty \/ TopOK(TopF, idx))
            /\ stack' = SetTop(AtTop(TopF, idx))
+           /\ entered' = IF TopF.tops = 0 THEN Bump(entered, <<TopF.loop, idx>>) ELSE entered
            /\ UNCHANGED <<idx, started, done>>
 
 \* a sub-parser of the current iteration matches and consumes k >= 1 bytes
 Consume(k) == /\ ~done /\ Depth > 0 /\ TopF.tops > 0 /\ TopF.tries < MaxTries
-              /\ idx + k <= N
+              /\ idx + k <= N + Extra
               /\ idx' = idx + k
               /\ stack' = SetTop([TopF EXCEPT !.tries = @ + 1])
-              /\ UNCHANGED <<started, done>>
+              /\ UNCHANGED <<started, entered, done>>
 
 \* Faulty only: a sub-parser reports a match but leaves the cursor where it was
 MatchWithoutConsuming == /\ Faulty /\ ~done /\ Depth > 0 /\ TopF.tops > 0 /\ TopF.tries < MaxTries
                          /\ stack' = SetTop([TopF EXCEPT !.tries = @ + 1])
-                         /\ UNCHANGED <<idx, started, done>>
+                         /\ UNCHANGED <<idx, started, entered, done>>
 
 \* a sub-parser fails after reading ahead and restores the cursor to a position of this iteration
 Restore(j) == /\ ~done /\ Depth > 0 /\ TopF.tops > 0 /\ TopF.tries < MaxTries
               /\ j >= TopF.last /\ j < idx
+              /\ (Reparse \/ j >= TopF.floor)      \* the work of a finished nested invocation is kept
               /\ idx' = j
               /\ stack' = SetTop([TopF EXCEPT !.tries = @ + 1])
-              /\ UNCHANGED <<started, done>>
+              /\ UNCHANGED <<started, entered, done>>
 
 \* the innermost loop ends (until-parser matched, nothing matched, or an error is returned)
 Exit == /\ ~done /\ Depth > 0 /\ TopF.tops > 0
-        /\ stack' = SubSeq(stack, 1, Depth - 1)
-        /\ UNCHANGED <<idx, started, done>>
+        /\ stack' = (IF Depth > 1
+                      THEN [SubSeq(stack, 1, Depth - 1) EXCEPT ![Depth - 1].floor = idx]
+                      ELSE <<>>)
+        /\ UNCHANGED <<idx, started, entered, done>>
 
 Finish == /\ ~done /\ Depth = 0 /\ started
           /\ done' = TRUE
-          /\ UNCHANGED <<idx, stack, started>>
+          /\ UNCHANGED <<idx, stack, started, entered>>
 
 Next == \/ \E l \in Loops : Enter(l)
         \/ LoopTop
@@ -100,10 +123,14 @@ Next == \/ \E l \in Loops : Enter(l)
 Spec == Init /\ [][Next]_vars /\ WF_vars(Next)
 
 -----------------------------------------------------------------------------
+\* the cursor (hence every position the parser can report) lies in the CALLER's input
 CursorInBounds == 0 <= idx /\ idx <= N
 \* a loop invocation sees at most N+1 tops: its indices at the tops are strictly increasing in 0..N
 TopBound == \A d \in 1..Depth : stack[d].tops <= N + 1
 LastInBounds == \A d \in 1..Depth : stack[d].last <= N
+\* one loop is started at one index a number of times that is polynomial in the nesting depth
+ReparseLimit == MaxTries * MaxDepth
+ReparseBound == \A k \in DOMAIN entered : entered[k] <= ReparseLimit
 \* every parse ends
 Termination == <>done
 \* exploration bound for the faulty configuration (tops grows without bound there)
